@@ -10,7 +10,7 @@
     hash [h]; [H] is Keccak-256 (any function: conclusions are "... or an explicit collision"). *)
 From Coq Require Import List ZArith NArith Bool.
 From Kardia Require Import C11.Varint C11.Proto C11.RLPItem C11.Model C11.ProofsVarint C11.ProofsRLP
-  C11.ProofsSign C11.ProofsTx C11.ProofsExtra Generated.C11Facts.
+  C11.ProofsSign C11.ProofsTx C11.ProofsExtra C11.ProofsCross Generated.C11Facts.
 Import ListNotations.
 Local Open Scope N_scope.
 
@@ -307,6 +307,48 @@ Theorem C11_make_signer_chain_bound :
     sender oracle H (make_signer (Some c) (Some s) (Some h)) t = SErrChainId.
 Proof. exact make_signer_chain_bound. Qed.
 Print Assumptions C11_make_signer_chain_bound.
+
+(** cross-domain separation (validators sign votes, proposals and transactions with one key):
+    the sign bytes of a vote / proposal are never the signing preimage of a transaction.
+    PARTIAL: for sign bytes shorter than 2 MiB (length varint of at most three bytes); the full
+    statement is [forall c v b s t, vote_sign_bytes c v = Some b -> b <> tx_sighash_preimage s t].
+    What is missing: for sign bytes of 2^49 bytes and more the two length HEADERS can coincide
+    (varint fe fc fa f6 ee de be 7e = RLP long-list header of the same length), so the unbounded
+    proof has to descend into the message bodies. *)
+Theorem C11_vote_vs_tx_disjoint_partial :
+  forall c v b s t, vote_sign_bytes c v = Some b -> len b < 2097152 -> b <> tx_sighash_preimage s t.
+Proof. exact vote_tx_disjoint. Qed.
+Print Assumptions C11_vote_vs_tx_disjoint_partial.
+
+Theorem C11_proposal_vs_tx_disjoint_partial :
+  forall c p b s t, proposal_sign_bytes c p = Some b -> len b < 2097152 -> b <> tx_sighash_preimage s t.
+Proof. exact proposal_tx_disjoint. Qed.
+Print Assumptions C11_proposal_vs_tx_disjoint_partial.
+
+(** a 65-byte signature accepted for a vote (proposal), re-used as the (R, S, recovery id) of a
+    transaction under any signer, yields a sender only through a Keccak collision between the
+    sign bytes and the transaction's signing preimage (same partiality as above) *)
+Theorem C11_binding_vote_vs_tx_partial :
+  forall oracle H chain addr vaddr v sig sg t a,
+    vote_verify oracle H chain addr vaddr v sig = VOk ->
+    sender oracle H sg t = SOk a ->
+    t_r t = be_val (firstn 32 sig) -> t_s t = be_val (firstn 32 (skipn 32 sig)) ->
+    (t_v t + 1) mod 2 = N.land (nth 64 sig 0) 251 ->
+    exists b hs, vote_sign_bytes chain v = Some b /\
+      (len b < 2097152 -> collision H b (tx_sighash_preimage hs t)).
+Proof. exact vote_tx_binding. Qed.
+Print Assumptions C11_binding_vote_vs_tx_partial.
+
+Theorem C11_binding_proposal_vs_tx_partial :
+  forall oracle H chain addr p sig sg t a,
+    proposal_verify oracle H chain addr p sig = VOk ->
+    sender oracle H sg t = SOk a ->
+    t_r t = be_val (firstn 32 sig) -> t_s t = be_val (firstn 32 (skipn 32 sig)) ->
+    (t_v t + 1) mod 2 = N.land (nth 64 sig 0) 251 ->
+    exists b hs, proposal_sign_bytes chain p = Some b /\
+      (len b < 2097152 -> collision H b (tx_sighash_preimage hs t)).
+Proof. exact proposal_tx_binding. Qed.
+Print Assumptions C11_binding_proposal_vs_tx_partial.
 
 (** source tie: the guards and machine arithmetic of the model are the expressions of the Go
     sources themselves, regenerated on every check (statement spelled out in SourceTie.v) *)
